@@ -155,7 +155,7 @@ class ActionsHarness(Harness):
             self.required_covers = ('list-to-sections', 'list-change-type')
         self.bounds = {'blocks_in_note': self.budget, 'nesting': 2, 'target': 'every node of the note, every provider', 'referenced note': 'd/b (sub-directory, with its own reference), missing note zz'}
         self.ctx_pat = re.compile(r'as ActionContext>::(\w+)$')
-        self.md_pat = re.compile(r"as NodeIter(<'_>)?>::(to_markdown|to_default_markdown)$")
+        self.md_pat = re.compile(r"NodeIter(<'_>)?>::(to_markdown|to_default_markdown)$")
 
     # ---- environment stubs
     def stub_ctx(self, ex, c, args, dt):
